@@ -337,6 +337,23 @@ def body(ctx, p):
                     bad.append((t2, 'guessed bond orders depend on call history', dflt[1], expl[1]))
             if any(abs(x - y) > 1e-12 * max(1, abs(x)) for x, y in zip(base0[1:], again[1:])):
                 bad.append((trip, 'angle not reproducible'))
+        # ONE rules list object that the caller edits between calls (a rule appended, a rule's order changed): every call follows the rules as
+        # they are at the time of that call
+        rl = [({'C_R', 'N_R'}, 1.41)]
+        first = RU.guess_bond_order('N_1', 'N_2', rl)
+        rl.append(({'N_1', 'N_2'}, 2))
+        second = RU.guess_bond_order('N_1', 'N_2', rl)
+        rl[0] = ({'C_R', 'N_R'}, 1.2)
+        third = RU.guess_bond_order('N_R', 'C_R', rl)
+        del rl[:]
+        fourth = RU.guess_bond_order('N_R', 'C_R', rl)
+        if (first, second, third, fourth) != (o_guess_bo('N_1', 'N_2'), 2, 1.2, o_guess_bo('N_R', 'C_R')):
+            bad.append(('rules list edited between calls', first, second, third, fourth))
+        for k_ in range(3):      # short-lived rule lists (a freed list's identity may be reused by the next one)
+            tmp = [({'C_2', 'C_3'}, 1.0 + 0.1 * k_)]
+            if RU.guess_bond_order('C_3', 'C_2', tmp) != 1.0 + 0.1 * k_:
+                bad.append(('fresh rules list', k_))
+            del tmp
         # ONE bond-order list object (one order fixed, the other left to be guessed = None) reused for several angles: every call must guess
         # for ITS OWN types, and the caller's list must still say None afterwards
         for fixed_pos in (0, 1):
